@@ -157,6 +157,25 @@ CLAIMS["C09"] = dict(
     note="precompute/dynamic classification of parameters is not modelled (pairs where it differs are counted and still compared exactly); pchip/callable smoothing outside the model.",
     design="8.C09")
 
+CLAIMS["C02"] = dict(
+    technique="Lean 4 invariants of the engine step (Atomica.Engine) lifted to every reachable state by induction + step-level trace refinement against Model.process with extreme/boundary regimes (mode B)",
+    text="Proof: for every well-formed net, every parameter vector and every non-negative state: cached fractions are >= 0 whatever the parameter's sign (convert_nonneg, neg_param_zero_flow), flows are >= 0, nobody is over-drawn from any "
+         "row however large the requests (resolve_no_overdraw), competing outflows keep their ratios per elapsed-time bin (resolve_ratio, resolve_common_factor), a row whose requests exceed 1 is emptied exactly (rescale_exact), "
+         "timed row 0 is emptied incl. the flush link, next stocks are >= 0 (step_nonneg) and so is every reachable state (run_nonneg); the step is defined (no division by zero = never NaN) exactly unless a plain junction with "
+         "zero proportion sum receives people (flows_defined); in exact arithmetic the numerical-artifact clip never fires (step_clip_inactive). Mode B on generated models with rates >> 1/dt, durations << dt, numbers >> stock, "
+         "empty compartments, negative function values; oracles for finiteness, non-negativity, over-draw, ratios, zero flow on negative parameters.",
+    note="double overflow/underflow cannot be exhibited in Q (the two overflow defects found were found by the correspondence + finiteness oracle).",
+    design="8.C02")
+CLAIMS["C04"] = dict(
+    technique="Lean 4 theorems about junction balancing and the initial flush along the topological junction order (Atomica.Engine.balanceAll/flushAll) + step-level trace refinement on junction-heavy models (modes B, D)",
+    text="Proof: updateComps never writes a junction, so after the start-up flush every junction is empty along every run (junction_always_empty); out_l = inflow * p_l / sum(p) for plain junctions, the three residual cases, zero "
+         "proportions send nothing (balance_plain, balance_residual_lt/eq/gt, balance_zero_some); for any well-formed net whose junction order is topological every junction - chains, fans, diamonds of any depth, row by row inside duration "
+         "groups - passes on exactly what it receives in the FINAL flow (balanceAll_passthrough, balance_chain); the initial flush empties every junction, preserves the grand total and moves content only downstream (flush_empties, flush_total, "
+         "flush_only_downstream, flush_noop_of_empty). Mode B on generated frameworks with single/chain/fan/diamond junctions, residual and plain, sum p <, =, > 1, time-varying, state-dependent and program-driven proportions, inside "
+         "and outside duration groups; the topological-order hypothesis is evaluated on every extracted _exec_order['junctions'].",
+    note="networkx.topological_sort is trusted to return some order; the order it returned is checked. Dust-level inflow at a junction with all-zero proportions is counted ambiguous.",
+    design="8.C04")
+
 NA_DEFAULT = "not yet claimed: model, theorems and correspondence under construction (see DESIGN.md section 8)"
 NA = {}
 
